@@ -1,8 +1,9 @@
-"""C05 (engine E1, bounded model checking)."""
+"""C05 - set/reset latches (E1 bounded model checking + CrossHair on MemoryBuilder._invert_comparison)."""
 import sys
 sys.path.insert(0, "/verif")
 from vf.main import run_prop
 from vf.report import main_wrapper
+from vf.crosshair_run import part
 
 if __name__ == "__main__":
-    main_wrapper(lambda: run_prop("C05"))
+    main_wrapper(lambda: run_prop("C05", extra_parts=[part(["c05_invert_comparison_is_negation"], [])]))
